@@ -48,6 +48,18 @@ def histories(R, n):
     return hs
 
 
+def creep_cases(R, n):
+    """oracle-only (the coordinates are decimal fractions, off the exact grid the model is compared on): equal relative
+    steps whose binary sum overshoots a decimal axis limit by a rounding error, the refused step carrying new F / S words"""
+    for _ in range(n):
+        h = bc.Gen(R.rng, W).creep()
+        lines, recs, im = bc.run_impl(h)
+        R.evaluations += 1
+        R.count("creep", "creep-rejections:%d" % sum(1 for r in recs if not r.startswith("out=ok")))
+        for step, msg, tag in oracle(lines, recs, im):
+            R.fail({"history": lines[: step + 1]}, msg, tag=tag, step=step)
+
+
 def witness():
     h = ["dist rel", "bounds feed-rate 200 1000", "hook add limitF:100", "moveabs x=1 F:500"]
     lines, recs, im = bc.run_impl(h)
@@ -68,6 +80,7 @@ def run(R: core.Run):
               ["bounds feed-rate 100 200", "move x=1 F:500 S:5", "probe towards z=-1 F:1"]]
     bc.correspond(R, corpus, KEYS, True, "corpus", oracle, nt)
     bc.correspond(R, histories(R, R.n(1500, 20000)), KEYS, True, "random", oracle, nt)
+    creep_cases(R, R.n(60, 600))
     if R.broken:
         R.search_batches += 1
         for h in histories(R, R.n(1500, 5000)):
